@@ -68,6 +68,8 @@ def grid_get(E, a, idx, node):
         sub = grid(E, a.shape[1:], a.lead - 1, (lambda *rest, clo=clo, t=t: clo(t, *rest)), a.kind, owner=owner_of(a),
                    fresh=a.ident in E.st.fresh)
         sub.parent = (a, t)          # a row of a nested list: stores go to the parent
+        if getattr(a, 'elem_kind', None):
+            sub.elem_kind = a.elem_kind
         return sub
     if isinstance(idx, tuple) and len(idx) == 2 and isinstance(idx[0], slice) and idx[0] == slice(None, None, None) \
             and a.lead == 2:
@@ -89,8 +91,14 @@ def grid_iter(E, a):
         # element k is read when iteration k starts (python list iteration): from the CURRENT contents, so that a loop
         # that changes the list it walks over sees its own earlier writes (through the loop invariant)
         return Iter(count=n, elem=lambda k: Elem(E.st.heap[a.ident](k).t, a, k, tl), deps=(a.ident,))
-    return Iter(count=n, elem=lambda k: grid(E, a.shape[1:], a.lead - 1, (lambda *rest: clo(k, *rest)), a.kind,
-                                             owner=owner_of(a), fresh=a.ident in E.st.fresh))
+    def row(k):
+        g = grid(E, a.shape[1:], a.lead - 1, (lambda *rest: E.st.heap[a.ident](k, *rest)), a.kind, owner=owner_of(a),
+                 fresh=a.ident in E.st.fresh)
+        g.parent = (a, k)
+        if getattr(a, 'elem_kind', None):
+            g.elem_kind = a.elem_kind
+        return g
+    return Iter(count=n, elem=row, deps=(a.ident,))
 
 
 def rows_term(E, a):
@@ -237,6 +245,34 @@ def byc_load(E, v, args, node):
     v.t = BYC_LOADED(v.t, df.t, sig.t, to_real(lift(fs)), to_real(lift(fr[0])), to_real(lift(fr[1])))
     v.cell['t'] = v.t
     return None
+
+
+CONCAT_ROWS = z3.Function('concat_tables', ValSort, ValSort)                       # (list of tables as a rows term)
+WITH_COL = z3.Function('table_with_column', ValSort, z3.IntSort(), ValSort, ValSort)   # (table, column name code, value)
+
+
+def table_setitem(E, v, key, value, node):
+    """df[key] = value on a table held in a (nested) list, group level: the element is replaced in place by the table with
+    that column set to the (scalar) value"""
+    from .values import str_code
+    if not isinstance(v, Elem) or getattr(v.arr, 'elem_kind', None) != 'table':
+        raise Unsupported('item store on %r' % (v,))
+    kt = z3.IntVal(str_code(key)) if isinstance(key, str) else (key.t if isinstance(key, Z) and key.ty == STR else None)
+    if kt is None or not isinstance(value, Opaque):
+        raise Unsupported('table column store with key %r value %r' % (key, value))
+    a = v.arr
+    root = getattr(a, 'parent', None)
+    idx = v.idx
+    vt = value.t
+    if root is not None:
+        pa, pt = root
+        E.mutate(owner_of(pa), node, 'column store into a table of the nested list')
+        old = E.st.heap[pa.ident]
+        E.st.heap[pa.ident] = lambda i, j, old=old, pt=pt, idx=idx: _sel(z3.And(i == pt, j == idx), WITH_COL(old(i, j).t, kt, vt), old(i, j).t)
+    else:
+        E.mutate(owner_of(a), node, 'column store into a table of the list')
+        old = E.st.heap[a.ident]
+        E.st.heap[a.ident] = lambda i, old=old, idx=idx: _sel(i == idx, WITH_COL(old(i).t, kt, vt), old(i).t)
 
 
 BYC_EDGES = z3.Function('bycycle_edges_recomputed', ValSort, z3.BoolSort(), z3.RealSort(), ValSort)     # (model, reduction given?, reduction)
